@@ -170,17 +170,17 @@ class C10Monitor:
             P = op.subject
             props = op.args[1] if len(op.args) > 1 and isinstance(op.args[1], dict) else {}
             ident = props.get("EDIF.identifier")
+            typ = {"Netlist.create_library": sdn.Library, "Library.create_definition": sdn.Definition,
+                   "Definition.create_port": sdn.Port, "Definition.create_cable": sdn.Cable,
+                   "Definition.create_child": sdn.Instance}[lab]
             if ident is not None and policy_of(P) == "EDIF":
                 if not LEGAL.match(ident):
                     return (True, "illegal identifier in properties")
-                chs = [c for _, _, cs in scopes_of(P) for c in cs if isinstance(c, sdn.Port)]
+                chs = [c for _, _, cs in scopes_of(P) for c in cs if isinstance(c, typ)]
                 if any("EDIF.identifier" in c and c["EDIF.identifier"].lower() == ident.lower() for c in chs):
                     return (True, "sibling holds the identifier given in properties")
             if nm is None:
                 return (False, "unnamed")
-            typ = {"Netlist.create_library": sdn.Library, "Library.create_definition": sdn.Definition,
-                   "Definition.create_port": sdn.Port, "Definition.create_cable": sdn.Cable,
-                   "Definition.create_child": sdn.Instance}[lab]
             ch = [c for _, _, chs in scopes_of(P) for c in chs if isinstance(c, typ)]
             return (any(".NAME" in c and c[".NAME"] == nm for c in ch), "sibling holds the name")
         if lab in ("Netlist.add_library", "Library.add_definition", "Definition.add_port", "Definition.add_cable",
@@ -324,6 +324,22 @@ def cross_policy_case(ctx, i, rng):
                             lambda: sub.create_child("i%d" % j, reference=host_def)])()
             if rng.random() < 0.8:
                 ident(x, depth_of_offence != "child")
+
+    if depth_of_offence == "child" and rng.random() < 0.6:
+        # a case twin: one more sibling of the same kind whose identifier differs only in letter case
+        host = rng.choice(defs if what == "library" else [sub])
+        kinds = []
+        for kind, g in (("port", list(host.ports)), ("cable", list(host.cables)), ("child", list(host.children))):
+            c = [x for x in g if "EDIF.identifier" in x and x["EDIF.identifier"].swapcase() != x["EDIF.identifier"]]
+            if c:
+                kinds.append((kind, c))
+        if kinds:
+            kind, c = rng.choice(kinds)
+            twin_of = rng.choice(c)
+            t = {"port": lambda: host.create_port("tw", pins=1), "cable": lambda: host.create_cable("tw", wires=1),
+                 "child": lambda: host.create_child("tw", reference=twin_of.reference if kind == "child" else None)}[kind]()
+            t["EDIF.identifier"] = twin_of["EDIF.identifier"].swapcase()
+            ctx.count("cross_policy_case_twins:" + kind)
 
     def offences(root):
         out = []
